@@ -78,3 +78,20 @@ def rule_strip_options_exist(rep: Report, repo: Repo, rule: str) -> None:
             rep.check(y[name] == "", rule, "config_default.yaml", f"{name}: {y[name]!r}",
                       "the default strip pattern is not empty: parameters are altered under default settings")
     rep.floor(rule, 7, "option facts")
+
+
+def rule_settings_plain(rep: Report, repo: Repo, rule: str) -> None:
+    """The settings dataclasses are plain records: no __post_init__ / properties / __setattr__ that derive one option from another."""
+    rep.rule(rule, "the settings dataclasses are plain records (no __post_init__, properties or attribute hooks): an option's value "
+                   "in effect is exactly what the layered configuration supplied, never derived from another option")
+    for cname in ("InputSettings", "OutputSettings", "LoggingSettings", "RSTSettings", "Settings"):
+        ci = repo.cls(cname)
+        meths = sorted(ci.methods)
+        rep.check(not meths, rule, f"cminx.config:{cname}", f"methods: {meths or 'none'}",
+                  f"{cname} defines {meths}: an option can be rewritten after the configuration was layered (e.g. one strip pattern "
+                  f"falling back to another)", witness="only function_parameter_name_strip_regex configured; member pattern empty")
+    # dict_to_settings passes the validated sections through unchanged
+    d2s = repo.func("cminx.config", "dict_to_settings")
+    odd = [norm(n)[:60] for n in ast.walk(d2s) if isinstance(n, (ast.IfExp, ast.If, ast.BoolOp))]
+    rep.check(not odd, rule, "cminx.config:dict_to_settings", "no conditional rewriting of options", f"dict_to_settings rewrites options: {odd}")
+    rep.floor(rule, 6, "settings classes")
